@@ -168,6 +168,11 @@ def gen_scenario(r):
     nvaa = r.choice([1, 2, 3, 4, 6, 9, 14])
     grid = [{"c": c, "a": a} for c in CHAINS for a in ADDRS]
     used = r.sample(grid, r.choice([2, 3, 4, 6]))
+    if r.random() < 0.35:
+        # the zero values: chain 0 (unset) and the all-zero address, alone and together, as emitters and as filter entries
+        zeros = [{"c": 0, "a": "zero"}, {"c": 0, "a": r.choice(ADDRS)}, {"c": r.choice(CHAINS), "a": "zero"}]
+        grid = grid + zeros
+        used = used + [zeros[0]] + r.sample(zeros, 1)
 
     def uniq(fs_):
         out = []
@@ -231,6 +236,27 @@ def flood_scenarios(seed_, variants=("resume", "fail")):
     res = []
     for variant in variants:
         a, b, c = r.sample([{"c": ch, "a": x} for ch in CHAINS for x in ADDRS], 3)
+        if variant in ("lonely-fail", "lonely-resume", "pair-fail"):
+            # as many overflowing subscribers as readers that stay: book-keeping that counts a dropped subscriber twice
+            # (once when it is dropped, once when its stream ends) reaches zero while a reader is still registered
+            stalled = ["s1"] if variant != "pair-fail" else ["s1", "s3"]
+            readers = ["s2"] if variant != "pair-fail" else ["s2", "s4"]
+            steps = []
+            for k, s in enumerate(stalled + readers if r.random() < 0.5 else readers + stalled):
+                steps.append({"ev": "Subscribe", "a": {"s": s, "f": ([a, c] if s in stalled else [b, c]) if (k % 2 == 0 or s in stalled) else []}})
+            steps += [{"ev": "Publish", "a": {"v": {"id": "v1", "em": c}}}, {"ev": "Sync", "a": {}}]
+            steps += [{"ev": "Stall", "a": {"s": s}} for s in stalled]
+            steps += [{"ev": "Flood", "a": {"em": a, "other": b, "both": c, "extra": r.choice([3, 4, 6]), "every": r.choice([89, 97, 131])}},
+                      {"ev": "Sync", "a": {}}]
+            steps += [{"ev": "Resume" if variant == "lonely-resume" else "Fail", "a": {"s": s}} for s in stalled]
+            steps += [{"ev": "Sync", "a": {}},
+                      {"ev": "Publish", "a": {"v": {"id": "v3", "em": b}}},
+                      {"ev": "Publish", "a": {"v": {"id": "v4", "em": c}}},
+                      {"ev": "Sync", "a": {}},
+                      {"ev": "Subscribe", "a": {"s": "s9", "f": []}},
+                      {"ev": "Publish", "a": {"v": {"id": "v5", "em": a}}}]
+            res.append({"steps": steps, "src": "flood-" + variant})
+            continue
         # a: the stalled subscriber only; b: the readers only; c: both (used around the overflow point)
         f1 = [] if variant == "resume" else [a, c]
         extra = r.choice([{"c": 2, "a": "a9"}, {"c": 77, "a": "a1"}])
